@@ -166,7 +166,8 @@ public class Math {
     }
 
     public static BigInteger shiftDn(BigInteger b1, int n) {
-        return b1.shiftRight(n);
+        // FOAM big integers are sign and magnitude: the magnitude is shifted (as in the C run time)
+        return b1.signum() < 0 ? b1.negate().shiftRight(n).negate() : b1.shiftRight(n);
     }
 
     public static BigInteger shiftRem(BigInteger b1, int n) {
